@@ -56,6 +56,7 @@ type CallsiteSpec struct {
 	Updates  []*Clause
 	ViaGo    string // "" any, "go" only go, "sync" only non-go
 	Hits     int
+	Snapshot bool // save the state before this call: later clauses read it with snap(e)
 	Skip     bool // do not execute the call itself (treated as no-op after the clauses)
 	Havoc    bool // force havoc-all at this call even if a contract exists
 }
@@ -452,6 +453,8 @@ func (db *SpecDB) LoadSpecFile(path, pkg string, assumed bool) error {
 					curCS.Skip = true
 				case "havoc":
 					curCS.Havoc = true
+				case "snapshot":
+					curCS.Snapshot = true
 				}
 			}
 			cur.Callsites = append(cur.Callsites, curCS)
